@@ -289,12 +289,69 @@ fn hostile_item(r: &mut Rng, thorough: bool) -> Vec<u8> {
     }
 }
 
+
+/// Concurrent store scenario (C04; also a share of C19's runs, where only explicit merging
+/// threads are used so that the store is quiet when the accounting is compared).
+fn gen_conc(check: &str, seed: u64, r: &mut Rng, cr: &mut Rng, tag: &mut u32, timer_merges: bool) -> Scenario {
+    let mut r = r;
+    let mut cr = cr;
+    let mut tag = *tag;
+            let mut cfg = store_cfg(&mut cr);
+            cfg.max_file_size = *cr.pick(&[60, 300, 1000, 9000, 20_000, 1 << 20]);
+            cfg.pool = *cr.pick(&[1, 1, 2, 2, 4]);
+            cfg.cache = *cr.pick(&[0, 1, 2, 256]);
+            let nkeys = cr.range(2, 4) as usize;
+            let keys = pick_keys(&mut cr, nkeys);
+            let big = *cr.pick(&[10, 40, 70]);
+            let writers = cr.range(1, 3) as usize;
+            let readers = cr.range(1, 3) as usize;
+            let mut threads = Vec::new();
+            for _ in 0..writers {
+                let n = r.range(3, 9) as usize;
+                threads.push(gen_ops(&mut r, n, nkeys, &OpMix { set: 60, get: 10, del: 25, merge: 0, reopen: 0, retune: 0, pass: 0 }, big, &mut tag));
+            }
+            for _ in 0..readers {
+                let n = r.range(3, 10) as usize;
+                threads.push(gen_ops(&mut r, n, nkeys, &OpMix { set: 0, get: 100, del: 0, merge: 0, reopen: 0, retune: 0, pass: 0 }, big, &mut tag));
+            }
+            match if timer_merges { cr.below(3) } else { cr.below(2) } {
+                0 => {}
+                1 => {
+                    let n = r.range(1, 4) as usize;
+                    threads.push((0..n).map(|_| Op::Merge).collect());
+                }
+                _ => {
+                    cfg.merge_always = true;
+                    cfg.check_interval_ms = 1;
+                    cfg.jitter = 0.5;
+                    cfg.trig_frag = 0.0;
+                    cfg.trig_dead = 0;
+                }
+            }
+            let mut sim = SimParams::default();
+            sim.num_cpus = *cr.pick(&[1, 2, 4]);
+            sim.strat = match cr.below(5) {
+                0 => Strat::Random(20),
+                1 => Strat::Random(100),
+                2 => Strat::Random(400),
+                3 => Strat::Pct(*cr.pick(&[1, 2, 3]), 400),
+                _ => Strat::Pct(*cr.pick(&[2, 5]), 1500),
+            };
+            if cr.one_in(2) {
+                sim.latency_pm = *cr.pick(&[50, 200]);
+                sim.max_latency_us = *cr.pick(&[10, 3000]);
+                sim.short_write_pm = *cr.pick(&[0, 100]);
+            }
+            Scenario { check: check.to_string(), seed, sim, body: Body::Store(StoreScn { cfg, keys, threads, fault: None, fault_reads: false, max_crash_points: 0, extra: 0 }) }
+}
+
 pub fn generate(check: &str, tier: &str, seed: u64) -> Scenario {
     let mut r = Rng::stream(seed, "workload");
     let mut cr = Rng::stream(seed, "config");
     let thorough = tier == "thorough";
     let mut tag = 0u32;
     match check {
+        "C19" if cr.one_in(4) => gen_conc(check, seed, &mut r, &mut cr, &mut tag, false),
         "C01" | "C02" | "C05" | "C12" | "C13" | "C14" | "C19" => {
             let mut cfg = store_cfg(&mut cr);
             let nkeys = cr.range(4, 12) as usize;
@@ -318,7 +375,7 @@ pub fn generate(check: &str, tier: &str, seed: u64) -> Scenario {
             };
             let mut ops = gen_ops(&mut r, n, nkeys, &mix, big, &mut tag);
             // a share of runs lets the store's own timer path do the merging
-            if matches!(check, "C01" | "C05" | "C13" | "C19") && cr.one_in(5) {
+            if matches!(check, "C01" | "C02" | "C05" | "C13" | "C19") && cr.one_in(5) {
                 cfg.merge_always = true;
                 cfg.check_interval_ms = *cr.pick(&[10, 1000, 18_000]);
                 cfg.jitter = *cr.pick(&[0.0, 0.3, 1.0]);
@@ -505,55 +562,7 @@ pub fn generate(check: &str, tier: &str, seed: u64) -> Scenario {
                 body: Body::Store(StoreScn { cfg, keys, threads: vec![ops], fault: None, fault_reads: if thorough { cr.one_in(2) } else { cr.one_in(3) }, max_crash_points: if thorough { 0 } else { 40 }, extra: 0 }),
             }
         }
-        "C04" => {
-            let mut cfg = store_cfg(&mut cr);
-            cfg.max_file_size = *cr.pick(&[60, 300, 1000, 9000, 20_000, 1 << 20]);
-            cfg.pool = *cr.pick(&[1, 1, 2, 2, 4]);
-            cfg.cache = *cr.pick(&[0, 1, 2, 256]);
-            let nkeys = cr.range(2, 4) as usize;
-            let keys = pick_keys(&mut cr, nkeys);
-            let big = *cr.pick(&[10, 40, 70]);
-            let writers = cr.range(1, 3) as usize;
-            let readers = cr.range(1, 3) as usize;
-            let mut threads = Vec::new();
-            for _ in 0..writers {
-                let n = r.range(3, 9) as usize;
-                threads.push(gen_ops(&mut r, n, nkeys, &OpMix { set: 60, get: 10, del: 25, merge: 0, reopen: 0, retune: 0, pass: 0 }, big, &mut tag));
-            }
-            for _ in 0..readers {
-                let n = r.range(3, 10) as usize;
-                threads.push(gen_ops(&mut r, n, nkeys, &OpMix { set: 0, get: 100, del: 0, merge: 0, reopen: 0, retune: 0, pass: 0 }, big, &mut tag));
-            }
-            match cr.below(3) {
-                0 => {}
-                1 => {
-                    let n = r.range(1, 4) as usize;
-                    threads.push((0..n).map(|_| Op::Merge).collect());
-                }
-                _ => {
-                    cfg.merge_always = true;
-                    cfg.check_interval_ms = 1;
-                    cfg.jitter = 0.5;
-                    cfg.trig_frag = 0.0;
-                    cfg.trig_dead = 0;
-                }
-            }
-            let mut sim = SimParams::default();
-            sim.num_cpus = *cr.pick(&[1, 2, 4]);
-            sim.strat = match cr.below(5) {
-                0 => Strat::Random(20),
-                1 => Strat::Random(100),
-                2 => Strat::Random(400),
-                3 => Strat::Pct(*cr.pick(&[1, 2, 3]), 400),
-                _ => Strat::Pct(*cr.pick(&[2, 5]), 1500),
-            };
-            if cr.one_in(2) {
-                sim.latency_pm = *cr.pick(&[50, 200]);
-                sim.max_latency_us = *cr.pick(&[10, 3000]);
-                sim.short_write_pm = *cr.pick(&[0, 100]);
-            }
-            Scenario { check: check.to_string(), seed, sim, body: Body::Store(StoreScn { cfg, keys, threads, fault: None, fault_reads: false, max_crash_points: 0, extra: 0 }) }
-        }
+        "C04" => gen_conc(check, seed, &mut r, &mut cr, &mut tag, true),
         "C18" => {
             let mut cfg = store_cfg(&mut cr);
             cfg.max_file_size = *cr.pick(&[60, 300, 1000, 1 << 20]);
